@@ -95,10 +95,16 @@ theorem adler_hasher_eq_spec (x : List UInt8) :
   show (adlerSpecFold (1, 0) x).2 % 65536 * 65536 + (adlerSpecFold (1, 0) x).1 % 65536 = _
   rw [Nat.mod_eq_of_lt hlt.1, Nat.mod_eq_of_lt hlt.2]
 
-/-- **However the bytes are split**: any non-empty sequence of `update` calls computes the
-    Adler-32 of the concatenation. -/
-theorem adler_any_split (parts : List (List UInt8)) (p0 : List UInt8) :
-    ((p0 :: parts).foldl AdlerHasher.update {}).checksum = adler32Spec (p0 :: parts).flatten := by
+/-- ZERO `update` calls (the empty string split into zero pieces): `checksum_u32` of a hasher that was only
+    initialised is the Adler-32 of the empty string, 1 (it was 0 before fixes/C07-adler32-zero-updates.patch:
+    `this.state` is set to 1 only by the first `update!`). -/
+theorem adler_zero_updates : ({} : AdlerHasher).checksum = adler32Spec [] ∧ adler32Spec [] = 1 := by
+  decide
+
+/-- **However the bytes are split**: EVERY sequence of `update` calls — including the empty sequence —
+    computes the Adler-32 of the concatenation. -/
+theorem adler_any_split (parts : List (List UInt8)) :
+    (parts.foldl AdlerHasher.update {}).checksum = adler32Spec parts.flatten := by
   have key : ∀ (ps : List (List UInt8)) (h : AdlerHasher) (q : List UInt8), adlerWf h →
       ps.foldl AdlerHasher.update (h.update q) = h.update (q ++ ps.flatten) := by
     intro ps
@@ -108,15 +114,15 @@ theorem adler_any_split (parts : List (List UInt8)) (p0 : List UInt8) :
       intro h q hw
       simp only [List.foldl_cons, List.flatten_cons]
       rw [adler_split h hw q p, ih h (q ++ p) hw, List.append_assoc]
-  simp only [List.foldl_cons, List.flatten_cons]
-  rw [key parts {} p0 (by unfold adlerWf; simp), adler_hasher_eq_spec]
-
-/-- Documented quirk (not covered by `adler_any_split`): with ZERO `update` calls the hasher
-    reports 0 although Adler-32 of the empty string is 1. -/
-theorem adler_zero_updates : ({} : AdlerHasher).checksum = 0 ∧ adler32Spec [] = 1 := by
-  decide
+  cases parts with
+  | nil => exact adler_zero_updates.1
+  | cons p0 parts =>
+    simp only [List.foldl_cons, List.flatten_cons]
+    rw [key parts {} p0 (by unfold adlerWf; simp), adler_hasher_eq_spec]
 
 example : ((AdlerHasher.update {} [1, 2, 3]).update [4]).checksum = adler32Spec [1, 2, 3, 4] :=
-  adler_any_split [[4]] [1, 2, 3]
+  adler_any_split [[1, 2, 3], [4]]
+
+example : ({} : AdlerHasher).checksum = adler32Spec [] := adler_any_split []
 
 end WuffsVerif.Props.C07
